@@ -13,10 +13,14 @@ ASSUMPTIONS = ["small-scope hypothesis: graphs above the node bound are not expl
 
 
 def specs(tier, seed):
-    return fg.specs_sir(tier)
+    from eonmc import fam_event_sir as fe
+    return fg.specs_sir(tier) + fe.specs_fast_sir(tier)
 
 
 def run_spec(spec):
+    if spec["fn"] == "fast_SIR":
+        from eonmc import fam_event_sir as fe
+        return fe.run_fast_sir(spec, props=("C01",))
     return fg.run_spec(spec, props=("C01",))
 
 TECHNIQUE = "stateless explicit-state exploration of the implementation: every outcome of every random draw enumerated (prefix-replay DFS, rejection loops closed as geometric series), per-state successor distribution and clock rate compared with a reference CTMC"
